@@ -72,7 +72,7 @@ func storages(t string) []*D {
 }
 
 func c05(c *Ctx) {
-	c.Rule = fmt.Sprintf("exhaustive: all ordered pairs of %d grid decimals x spellings of the argument x storages of the receiver, seven answers per pair checked against math/big and against trichotomy / LessOrEqual=Less||Equal / GreaterOrEqual=Greater||Equal / NotEqual=!Equal; AnyOf with 0..6 mixed arguments; random decimal, string and boolean pairs. Non-trivial = the two values differ in representation or value; distinct by (query, data).", len(gridC05))
+	c.Rule = fmt.Sprintf("exhaustive: all ordered pairs of %d grid decimals x spellings of the argument x storages of the receiver, seven answers per pair checked against math/big and against trichotomy / LessOrEqual=Less||Equal / GreaterOrEqual=Greater||Equal / NotEqual=!Equal; AnyOf with 0..6 mixed arguments; random decimal, string and boolean pairs. Pairs stored at different scales whose rescaled coefficient is 17..21 digits long (around 2^63 and 2^64), both orders, decimal storage and literal; zero-padded literals. Non-trivial = the two values differ in representation or value; distinct by (query, data).", len(gridC05))
 	fns := []string{"Less", "LessOrEqual", "Greater", "GreaterOrEqual", "Equal", "NotEqual"}
 	wantOf := func(fn string, cmp int) bool {
 		switch fn {
